@@ -157,6 +157,13 @@ pub fn history_mode(f: &Joints, t: &Joints) -> u64 {
 pub fn make_constraints(f: &Joints, t: &Joints, w: f64) -> Constraints {
     let mode = history_mode(f, t);
     let shift = |x: &Joints, d: f64| -> Joints { let mut y = *x; for k in 0..6 { if y[k].is_finite() { y[k] += d * (1.0 + k as f64 * 0.1); } } y };
+    // limits on the whole-degree lattice: every other one of them goes through the degrees constructor (which converts
+    // limits and nothing else; the sorting weight is not an angle)
+    let lattice = |x: f64| x.is_finite() && x.to_degrees().round().to_radians() == x;
+    if mode % 2 == 0 && (0..6).all(|k| lattice(f[k]) && lattice(t[k])) {
+        let d = |k: usize| f[k].to_degrees().round()..=t[k].to_degrees().round();
+        return Constraints::from_degrees([d(0), d(1), d(2), d(3), d(4), d(5)], w);
+    }
     match mode {
         0..=3 => Constraints::new(*f, *t, w),
         4 => { let mut c = Constraints::new(shift(f, -0.4), shift(t, 0.3), w); c.update_range(*f, *t); c }
@@ -244,8 +251,28 @@ pub fn gen_stack(r: &mut Rng, depth: usize, axial: bool, allow_para: bool) -> Ve
 /// constraint families: none, wide, narrow window around `around`, wrapping, from == to on some joints
 pub fn gen_cons(r: &mut Rng, around: Option<&Joints>) -> (String, Option<([f64; 6], [f64; 6], f64)>) {
     let w = *r.pick(&[0.0, 1.0, 0.3, 0.5, 0.0]);
-    match r.below(8) {
+    match r.below(10) {
         0 => ("none".into(), None),
+        8 => {
+            // whole degrees (as the degrees constructor and robot descriptions give them), any order incl. wrap-around
+            let mut f = [0.0; 6]; let mut t = [0.0; 6];
+            let wrap = r.chance(0.5);
+            for k in 0..6 {
+                let (a, b) = (r.below(175) as f64 + 5.0, r.below(175) as f64 + 5.0);
+                if wrap && r.chance(0.5) { f[k] = a.to_radians(); t[k] = (-b).to_radians(); } else { f[k] = (-a).to_radians(); t[k] = b.to_radians(); }
+            }
+            let w = if w == 0.0 && r.chance(0.5) { 0.7 } else { w };
+            (if wrap { "degree-lattice/wrapping".into() } else { "degree-lattice".into() }, Some((f, t, w)))
+        }
+        9 => {
+            // 'from' exceeds 'to' by exactly a whole number of turns on one joint: a single admissible angle (tolerance 0)
+            let mut f = [0.0; 6]; let mut t = [0.0; 6];
+            for k in 0..6 { f[k] = r.range(-PI, -1.0); t[k] = r.range(1.0, PI); }
+            let k = r.below(6);
+            let (a, b) = *r.pick(&[(PI, -PI), (2.0 * PI, 0.0), (0.0, -2.0 * PI), (2.0 * PI, -2.0 * PI), (PI / 2.0 + 2.0 * PI, PI / 2.0), (4.0 * PI, 0.0)]);
+            f[k] = a; t[k] = b;
+            ("whole-turns-apart".into(), Some((f, t, w)))
+        }
         7 => {
             // sliver arcs: limits a fraction of a nanoradian (down to one ulp) apart on some joints -- still limits
             let c = around.cloned().unwrap_or([0.0; 6]);
